@@ -568,7 +568,10 @@ def check_group(ctx, binary, g, check, tol, stats):
                 if ok:
                     break
             if not ok:
-                raise vlib.InfraError("property failure %s of behaviour %d (%s) did not reproduce: %s" % (keys, bad, g.label, info))
+                # uniform verdict policy: an observation that does not reproduce is recorded and logged, never a verdict, never exit 2
+                vlib.log("  [%s] property failure %s of behaviour %d did not reproduce in 6 attempts (%s)" % (g.label, keys, bad, info))
+                stats.setdefault("unreproduced", []).append({"source": g.label, "behaviour": bad, "keys": keys, "script": script[:40]})
+                keys = []
             for key in keys:
                 ctx.report(report_key(pid, key), "real handler contradicts %s (%s) in history %s" % (key.split(":")[0], key.split(":")[1], json.dumps(script[1:])[:400]),
                            {"script": script, "cfg": cfgi, "mode": g.mode, "shape": g.shape, "keys": keys, "shared": g.shared})
@@ -589,7 +592,9 @@ def check_group(ctx, binary, g, check, tol, stats):
             if ok:
                 break
         if not ok:
-            raise vlib.InfraError("known finding %s did not reproduce on re-execution (%s)" % (key, info))
+            vlib.log("  [%s] known finding %s did not reproduce in 6 attempts (%s)" % (g.label, key, info))
+            stats.setdefault("unreproduced", []).append({"source": g.label, "behaviour": owner_i, "keys": [key], "script": script[:40]})
+            continue
         stats["known_reported"].add(key)
         c = key.split(":")[1]
         ctx.report(report_key(pid, key), KF_WHAT.get(c, c), {"script": script, "cfg": cfgi, "mode": g.mode, "shape": g.shape, "keys": [key]})
@@ -612,6 +617,13 @@ def c10_part(ctx):
             hs = [lifecycle_script(rng, shape, 30) for _ in range(n // 9)] + [random_script(rng, shape if shape else 2, 20) for _ in range(n // 18)] if shape else \
                  [lifecycle_script(rng, shape, 30) for _ in range(n // 9)]
             for h in hs:
+                # environment event of the C10 histories: the device refuses the next write with a temporary error
+                h2 = []
+                for st in h:
+                    if st.get("a") in ("discover", "request") and rng.random() < 0.08:
+                        h2.append({"a": "tempfail"})
+                    h2.append(st)
+                h[:] = h2
                 lines.append({"a": "reset", "cfg": shape, "mode": mode, "id": i, "storm": 1 if i % 40 == 0 else 0})
                 lines += h
                 hs_all.append((shape, mode, h))
@@ -640,6 +652,7 @@ def c10_part(ctx):
             differing[beh] = (x, y)
     # histories whose outcome depends on Go map order are no evidence about the receive buffer: two leases holding one
     # address (a freed lease keeps its last address: KF_StaleLeaseShadows) make findByIP order dependent
+    shadow_fixed = "shadow" in fixed(ctx)      # since 746292d findByIP ignores freed leases: only live duplicates are order dependent
     maporder, bi = set(), -1
     for lines in (a, b):
         bi = -1
@@ -647,7 +660,7 @@ def c10_part(ctx):
             e = json.loads(x)
             if e.get("a") == "reset":
                 bi += 1
-            ips = [l["ip"] for l in e.get("leases", []) if l["ip"] != NOA]
+            ips = [l["ip"] for l in e.get("leases", []) if l["ip"] != NOA and (l["st"] != "free" or not shadow_fixed)]
             if len(ips) != len(set(ips)):
                 maporder.add(bi)
     nondet = [{"behaviour": i, "verdict": "two leases hold one address (map order)"} for i in sorted(maporder & set(differing))]
@@ -693,7 +706,7 @@ def c10_attribute(ctx, binary, script, tag, n=4):
         return "panic", []
     for t in fresh + shared:
         for x in t.splitlines():
-            ips = [l["ip"] for l in json.loads(x).get("leases", []) if l["ip"] != NOA]
+            ips = [l["ip"] for l in json.loads(x).get("leases", []) if l["ip"] != NOA and (l["st"] != "free" or "shadow" not in fixed(ctx))]
             if len(ips) != len(set(ips)):
                 return "map-order", []
     if len(set(fresh)) != 1 or len(set(shared)) != 1:
@@ -889,6 +902,8 @@ def run_family(ctx, check, plan_fn=None):
     })
     if stats["incomplete"]:
         cov["incomplete_groups"] = stats["incomplete"]
+    cov["unreproduced"] = stats.get("unreproduced", [])[:20]
+    cov["unreproduced_count"] = len(stats.get("unreproduced", []))
     ctx.assumptions += [
         "lease expiry is driven through MinuteTicker(now) with now before / after every expiry (the handler stamps leases with the real clock)",
         "single packet-loop goroutine; forged decline/release frames and the DISCOVER storm are separated by BOOTP op / chaddr and not judged here",
